@@ -48,7 +48,10 @@ func ParseTime(ctx context.Context, src string, precision int) (DateTime, bool) 
 	} {
 		value, err := time.Parse(format, src)
 		if err == nil && offsetInRange(src) {
-			return NewTimestampTZ(ctx, adjustPrecision(value, precision)), true
+			// Keep the offset of src: time.Parse returns a time in
+			// time.Local if the offset is one that zone uses, and after
+			// rounding the zone's offset may be another.
+			return NewTimestampTZ(ctx, adjustPrecision(offsetOnlyTimeFor(value), precision)), true
 		}
 	}
 
